@@ -225,6 +225,14 @@ ActionClauses(e) ==
                  \o Chk(e.shared_mutables = 0, e, "C16.copy-shares-mutable-state")))
     [] e.act = "TwinOp" ->        \* an operation applied to the twin: the source must stay as it is
          Chk(o = pre, e, "C16.mutating-the-copy-changed-the-source")
+    [] e.act = "EditMembers" ->     \* members of a named group edited in place: no line changes; nothing but member lists may differ
+         Chk(e.exc = "", e, "C17.edit-raised")
+         \o Chk(Struct(o.items) = Struct(pre.items) /\ Seqs(o.items) = Seqs(pre.items) /\ Ids(o.items) = Ids(pre.items) /\ Notes(o.items) = Notes(pre.items)
+                /\ Len(Fl(o.items)) = Len(Fl(pre.items))
+                /\ \A k \in 1..Len(Fl(pre.items)) :
+                      LET a == Fl(pre.items)[k]  b == Fl(o.items)[k]
+                          nomem(f) == [f EXCEPT !.src = [f.src EXCEPT !.mem = <<>>], !.dst = [f.dst EXCEPT !.mem = <<>>]]
+                      IN  b.kind = a.kind /\ b.text = a.text /\ nomem(b.f) = nomem(a.f), e, "C17.member-edit-changed-something-else")
     [] e.act = "EditEntry" -> Chk(e.exc = "", e, "C17.edit-raised")         \* an entry edited in place through its own API: no prediction,
                                                                           \* the consistency clauses and the following steps judge the result
     [] e.act \in {"Shading", "ShadowOf", "DeleteShadow"} -> <<>>      \* handled by ShadowClauses
